@@ -483,8 +483,9 @@ Proof.
     { intros c Hc. apply Rmult_le_reg_r with ((1 + c * c) * (2 * lo)); [nra|].
       replace (rho / (1 + c * c) * ((1 + c * c) * (2 * lo))) with (rho * (2 * lo)) by (field; nra).
       replace (1 / (2 * lo) * ((1 + c * c) * (2 * lo))) with (1 + c * c) by (field; lra).
-      assert (0 <= (1 - rho * lo) * (1 - rho * lo)) by nra.
-      assert ((rho * lo) * (rho * lo) <= c * c) by nra. nra. }
+      pose proof (Rle_0_sqr (1 - rho * lo)) as SQ; unfold Rsqr in SQ.
+      assert (0 <= rho * lo) by (apply Rmult_le_pos; lra).
+      assert ((rho * lo) * (rho * lo) <= c * c) by (apply Rmult_le_compat; lra). nra. }
     destruct (Rtotal_order q 1) as [Q|[Q|Q]].
     - destruct (Req_dec rho 0) as [R0|R0].
       { rewrite R0, Rmult_0_l, Rminus_diag_eq, Rabs_R0 by reflexivity.
@@ -496,7 +497,7 @@ Proof.
       replace ((rho - rho * q) / (1 + c * c)) with ((1 - q) * (rho / (1 + c * c))) by (field; nra).
       replace ((1 - q) / (2 * lo)) with ((1 - q) * (1 / (2 * lo))) by (field; lra).
       apply Rmult_le_compat_l; [lra|]. apply AM. nra.
-    - subst q. rewrite Rmult_1_r, !Rminus_diag_eq, Rabs_R0 by reflexivity. unfold Rdiv; rewrite Rmult_0_l; lra.
+    - rewrite Q, Rmult_1_r, !Rminus_diag_eq, Rabs_R0 by reflexivity. unfold Rdiv; rewrite Rmult_0_l; lra.
     - destruct (Req_dec rho 0) as [R0|R0].
       { rewrite R0, Rmult_0_l, Rminus_diag_eq, Rabs_R0 by reflexivity.
         apply Rmult_le_pos; [apply Rabs_pos | apply Rlt_le, Rinv_0_lt_compat; lra]. }
@@ -537,12 +538,11 @@ Proof.
     - pose proof (SIN_bound (t / 2)). destruct (Rle_dec (t / 2) 1); [|lra].
       assert (0 <= sin (t / 2)) by (apply sin_ge_0; [lra | pose proof PI2_1; pose proof PI_RGT_0; lra]). lra.
     - apply Rlt_le, sin_lt_x; lra. }
-  assert (sin (t / 2) * sin (t / 2) <= (t / 2) * (t / 2)).
-  { rewrite <- (Rabs_pos_eq (t / 2)) at 1 2 by lra.
-    replace (sin (t / 2) * sin (t / 2)) with (Rabs (sin (t / 2)) * Rabs (sin (t / 2)))
-      by (rewrite <- Rabs_mult; apply Rabs_pos_eq; nra).
-    rewrite (Rabs_pos_eq (t / 2)) by lra. pose proof (Rabs_pos (sin (t / 2))). nra. }
-  nra.
+  apply Rabs_le_inv in S || (unfold Rabs in S; destruct (Rcase_abs (sin (t / 2)))).
+  all: set (sn := sin (t / 2)) in *; set (hf := t / 2) in *.
+  all: assert (0 <= (hf - sn) * (hf + sn)) by (apply Rmult_le_pos; lra).
+  all: assert (t = 2 * hf) by (unfold hf; field).
+  all: nra.
 Qed.
 Lemma acos_near_one eps : 0 <= eps <= 2 -> sqrt (2 * eps) <= acos (1 - eps).
 Proof.
